@@ -170,6 +170,103 @@ func (cl *countedLoop) tripCount() (int64, bool) {
 	return 0, false
 }
 
+// aff is an integer affine form c + Σ coef·leaf over SSA values (leaves compared with core.SameExpr).
+type aff struct {
+	leaves []ssa.Value
+	coefs  []int64
+	c      int64
+	ok     bool
+}
+
+func (a aff) add(b aff, sign int64) aff {
+	if !a.ok || !b.ok {
+		return aff{}
+	}
+	out := aff{append([]ssa.Value{}, a.leaves...), append([]int64{}, a.coefs...), a.c + sign*b.c, true}
+	for j, l := range b.leaves {
+		found := false
+		for i := range out.leaves {
+			if core.SameExpr(out.leaves[i], l) {
+				out.coefs[i] += sign * b.coefs[j]
+				found = true
+				break
+			}
+		}
+		if !found {
+			out.leaves = append(out.leaves, l)
+			out.coefs = append(out.coefs, sign*b.coefs[j])
+		}
+	}
+	return out
+}
+
+func (a aff) scale(k int64) aff {
+	if !a.ok {
+		return a
+	}
+	out := aff{a.leaves, make([]int64, len(a.coefs)), a.c * k, true}
+	for i, c := range a.coefs {
+		out.coefs[i] = c * k
+	}
+	return out
+}
+
+func (a aff) isZero() bool {
+	if !a.ok || a.c != 0 {
+		return false
+	}
+	for _, c := range a.coefs {
+		if c != 0 {
+			return false
+		}
+	}
+	return true
+}
+
+func affEq(a, b aff) bool { return a.add(b, -1).isZero() }
+
+// affOf reads v as an affine form (+, -, multiplication by a constant; everything else is a leaf).
+func affOf(v ssa.Value, d int) aff {
+	v = core.StripConv(v)
+	if k, isK := core.ConstInt(v); isK {
+		return aff{nil, nil, k, true}
+	}
+	if bo, isB := v.(*ssa.BinOp); isB && d < 12 {
+		switch bo.Op {
+		case token.ADD:
+			return affOf(bo.X, d+1).add(affOf(bo.Y, d+1), 1)
+		case token.SUB:
+			return affOf(bo.X, d+1).add(affOf(bo.Y, d+1), -1)
+		case token.MUL:
+			if k, isK := core.ConstInt(core.StripConv(bo.X)); isK {
+				return affOf(bo.Y, d+1).scale(k)
+			}
+			if k, isK := core.ConstInt(core.StripConv(bo.Y)); isK {
+				return affOf(bo.X, d+1).scale(k)
+			}
+		}
+	}
+	return aff{[]ssa.Value{v}, []int64{1}, 0, true}
+}
+
+// tripsAff: the number of iterations of a unit-step loop as an affine form (meaningful when non-negative; two loops
+// with equal forms run equally often).
+func (cl *countedLoop) tripsAff() aff {
+	i, b := affOf(cl.init, 0), affOf(cl.bound, 0)
+	one := aff{nil, nil, 1, true}
+	switch {
+	case cl.step == 1 && cl.op == token.LSS:
+		return b.add(i, -1)
+	case cl.step == 1 && cl.op == token.LEQ:
+		return b.add(i, -1).add(one, 1)
+	case cl.step == -1 && cl.op == token.GTR:
+		return i.add(b, -1)
+	case cl.step == -1 && cl.op == token.GEQ:
+		return i.add(b, -1).add(one, 1)
+	}
+	return aff{}
+}
+
 func max64(a, b int64) int64 {
 	if a > b {
 		return a
@@ -530,6 +627,31 @@ func RuleG7(c *Ctx) {
 					// the default may arrive only on the edge where no (single) limit was given
 					ifi, isIf := pred.Instrs[len(pred.Instrs)-1].(*ssa.If)
 					if !isIf {
+						// … or the edge lies wholly inside the `len(maxCpus) != 1` region
+						noLimit := core.NewCuts()
+						for _, b := range fn.Blocks {
+							bi, ok := b.Instrs[len(b.Instrs)-1].(*ssa.If)
+							if !ok {
+								continue
+							}
+							cmp, ok := bi.Cond.(*ssa.BinOp)
+							if !ok || (cmp.Op != token.EQL && cmp.Op != token.NEQ) {
+								continue
+							}
+							x, isLen := core.IsLenOf(cmp.X)
+							one, isOne := core.ConstInt(cmp.Y)
+							if !isLen || !isOne || one != 1 || core.PathOf(x) != "p:maxCpus" {
+								continue
+							}
+							if cmp.Op == token.NEQ {
+								noLimit.AddEdge(b, 0)
+							} else {
+								noLimit.AddEdge(b, 1)
+							}
+						}
+						if !noLimit.Empty() && core.MustPass(fn, noLimit, pred.Instrs[len(pred.Instrs)-1]) {
+							continue
+						}
 						okPhi = false
 						why = "the default NumCPU reaches the task count on an edge that is not the `no limit given` edge"
 						continue
@@ -835,12 +957,8 @@ func (c *Ctx) g2ChannelJoin(s *spawnSite, root ssa.Value) (*core.Cuts, string) {
 		if rl == nil || spawnLoop == nil {
 			return
 		}
-		z1, k1 := core.ConstInt(rl.init)
-		z2, k2 := core.ConstInt(spawnLoop.init)
-		if !(k1 && k2 && z1 == 0 && z2 == 0 && rl.step == 1 && spawnLoop.step == 1 && rl.op == token.LSS && spawnLoop.op == token.LSS) {
-			return
-		}
-		if !core.SameExpr(rl.bound, spawnLoop.bound) {
+		// as many receives as spawns
+		if !affEq(rl.tripsAff(), spawnLoop.tripsAff()) {
 			return
 		}
 		// the receive executes on every iteration
@@ -864,7 +982,7 @@ func (c *Ctx) g2ChannelJoin(s *spawnSite, root ssa.Value) (*core.Cuts, string) {
 		}
 	})
 	if !cuts.Empty() {
-		return cuts, "receive loop with the same bound value as the spawn loop"
+		return cuts, "receive loop with the same trip count as the spawn loop"
 	}
 	// (e) the reducer of the msmCk functions: consumes every chunk channel (rule M4 decides exact coverage)
 	for _, ci := range core.CallsIn(p) {
